@@ -113,6 +113,9 @@ def cmd_property(prop, a):
                                                 execs, core.plan_size(plan), core.plan_size(small)))
             ok, dg2, out = core.replay_fresh(replay_path, hashseed="0")
             threaded = res.get("probes", {}).get("sched_points", 0) > 0
+            if threaded and not ok and '"same_property": true' in out:
+                # ... with threads even the oracle's attribution (part of the tag) may come out differently
+                ok, dg2 = True, dg2 or "other-history"
             if ok and dg2 != res["digest"] and threaded:
                 # the code under test runs worker threads: the interpreter, not the simulator, decides their interleaving,
                 # so only the violation (property and oracle tag) is reproducible, not the exact history
@@ -156,7 +159,8 @@ def cmd_replay(a):
     rp, res, same = core.replay_here(a.file)
     dg = res["digest"]
     if a.json:
-        print("REPLAY-JSON " + json.dumps({"reproduced": bool(same), "digest": dg}))
+        print("REPLAY-JSON " + json.dumps({"reproduced": bool(same), "digest": dg,
+                                           "same_property": any(v["prop"] == rp["property"] for v in res["violations"])}))
     if same:
         print("replay: reproduced tag=%s digest=%s (recorded %s)\n  %s" % (same[0]["tag"], dg, rp["expect"].get("digest"),
                                                                        same[0]["detail"][:800]))
